@@ -137,6 +137,7 @@ type pathState struct {
 	schedSteps  int
 	stateHook   func(g *gor)
 	inDepInit   int
+	curFrame    *frame
 	bindings    map[*sym.Term]*sym.Term
 	substMemo   map[int]*sym.Term
 	blobs       []*protoBlob
@@ -169,10 +170,16 @@ func (st *pathState) endPath(o Outcome, msg string) {
 }
 
 func (st *pathState) unsupported(msg string) {
+	if st.curFrame != nil {
+		msg += " @ " + strings.Join(st.curFrame.stack(), " < ")
+	}
 	st.endPath(OutUnsupported, msg)
 }
 
 func (st *pathState) engineError(msg string) {
+	if st.curFrame != nil {
+		msg = "target stack: " + strings.Join(st.curFrame.stack(), " < ") + "\n" + msg
+	}
 	if !st.outcomeSet {
 		st.outcomeSet = true
 		st.outcome = OutEngineError
